@@ -45,7 +45,7 @@ class SeqSystem:
 
     def observe(self):
         S = self.sim.S
-        return tuple(S[self.sid[n]] for n in ("o", "p", "oa", "oc", "os", "om0", "om1"))
+        return tuple(S[self.sid[n]] for n in ("o", "p", "pn", "oa", "oc", "os", "om0", "om1"))
 
     def cmp(self, exp, when):
         S = self.sim.S
